@@ -194,6 +194,7 @@ class World:
         if isinstance(o, M.Raised):
             return o
         ob = Obj(len(self.objs), rid, o, type(o), wc)
+        ob.attrs0 = set(vars(o))   # instance attributes right after construction (C18)
         self.objs.append(ob)
         h = Handle(len(self.handles), ob.oid, [], o, r.kind)
         self.handles.append(h)
